@@ -29,6 +29,7 @@ DIMS = {
     "donor_paint": ["red", "rgba", "named", "omitted", "opacity", "current", "current_op", "var", "var_op"],
     "copy_paint": ["blue", "same", "black", "alpha", "current", "var", "lin_bbox", "lin_user", "rad_bbox", "rad_focal_fr"],
     "twin": ["none", "same_glyph", "cross_glyph"],
+    "shared_grad": [False, True],
     "lin_vec": ["bbox_h", "diag", "vert", "pct", "short", "user"],
     "lin_gt": ["none", "rot", "nonuniform", "skew", "translate", "involutory", "rotscale"],
     "lin_spread": ["pad", "repeat", "reflect"],
@@ -85,6 +86,8 @@ def relevant(dev):
         return False  # the twin overrides the oval's gradient
     if dev.get("twin") == "cross_glyph" and any(k.startswith("lin_") for k in dev):
         return False  # ... and the blob's
+    if dev.get("shared_grad") and (any(k.startswith("lin_") or k.startswith("rad_") for k in dev) or dev.get("twin", "none") != "none" or dev.get("nglyphs") == 1 or dev.get("stack") == "one"):
+        return False
     if dev.get("grp") == "emptyglyph" and dev.get("nglyphs") == 1:
         return False
     return True
@@ -182,6 +185,12 @@ def mk(a):
         "rad_focal_fr": Radial("rg2", 0.5, 0.5, 0.5, STOPS2, fx=0.35, fy=0.4, fr=0.1),
     }[cpn]
     tri_paint = Solid("green")
+    if a.get("shared_grad"):
+        # the very same (user-space) linear gradient on the blob of glyph A and on the triangle of glyph B
+        lin = Linear("lg1", *U(30, 40), *U(80, 75), STOPS2, units="userSpaceOnUse")
+        tri_paint = Linear("lg9", *U(30, 40), *U(80, 75), STOPS2, units="userSpaceOnUse")
+        lin_shape_op = 1.0
+        rad = Solid("orange")  # ... and no other gradient in glyph B (nothing else can take the gradient's id there)
     twin = a.get("twin", "none")
     if twin != "none":
         # twins: the same circles and stops under two different gradientTransforms. Both are non-uniform scales
